@@ -75,7 +75,7 @@ var c12Probes = []c12Probe{{"P1", false, ""}, {"P2", false, ""}, {"P3", false, "
 	{"P11", false, ""},
 	// top-level code (not a function body) with a deferred call of its own
 	{"P10", false, "{\n\tdefer p10cleanup()\n\thook.Fault(\"p10-top\")\n\tp10n += p10body()\n\thook.Ev(\"p10\", p10n > 0)\n}"}}
-var c13Targets = []string{"L1", "L2", "L3", "L4", "L5", "L6", "L7", "L8", "L9"}
+var c13Targets = []string{"L1", "L2", "L3", "L4", "L5", "L6", "L7", "L8", "L9", "L10"}
 
 const (
 	entryEval = iota
